@@ -532,3 +532,59 @@ package badger
 //@   light
 //@   assert[in-order] before call applyManifestChange : arg0 == build && arg1 == changeSet.Changes[rangeindex + 1]
 //@   assert[stops-at-first-error] before return : result != nil ==> result == ret(applyManifestChange#1)
+
+// ---- key ranges and the compaction status (C14) ----
+
+//@ spec krEmpty(r keyRange) bool = len(r.left) == 0 && len(r.right) == 0 && !r.inf
+//@ spec krWF(r keyRange) bool = krEmpty(r) || r.inf || (len(r.left) >= 8 && len(r.right) >= 8)
+//@ spec krOverlap(r keyRange, d keyRange) bool = krEmpty(r) || (!krEmpty(d) && (r.inf || d.inf || (keycmp(r.left, d.right) <= 0 && keycmp(r.right, d.left) >= 0)))
+
+//@ func (keyRange).isEmpty
+//@   props C14
+//@   ensures result <==> krEmpty(r)
+
+//@ func (keyRange).overlapsWith
+//@   props C14
+//@   requires krWF(r) && krWF(dst)
+//@   ensures[exact] result <==> krOverlap(r, dst)
+
+//@ func (*levelCompactStatus).overlapsWith
+//@   props C14
+//@   requires krWF(dst) && forall i int :: 0 <= i && i < len(lcs.ranges) ==> krWF(lcs.ranges[i])
+//@   ensures[any] result <==> exists i int :: 0 <= i && i < len(lcs.ranges) && krOverlap(lcs.ranges[i], dst)
+//@   loop 1 invariant[none] forall i int :: 0 <= i && i <= rangeindex ==> !krOverlap(lcs.ranges[i], dst)
+//@   loop 1 invariant[range] rangeindex < len(lcs.ranges)
+
+// compareAndAdd: true only if no recorded compaction overlaps this one on either level; then
+// both ranges and every table id are recorded; false changes nothing.
+//@ func (*compactStatus).compareAndAdd
+//@   props C14
+//@   light
+//@   assert[locked] before call overlapsWith#1 : held(cs.RWMutex)
+//@   assert[this-level-checked] before call overlapsWith#1 : arg0 == cs.levels[cd.thisLevel.level] && arg1 == cd.thisRange
+//@   assert[next-level-checked] before call overlapsWith#2 : arg0 == cs.levels[cd.nextLevel.level] && arg1 == cd.nextRange
+//@   assert[added-only-if-free] before call append#1 : called(overlapsWith#1) && called(overlapsWith#2) && !ret(overlapsWith#1) && !ret(overlapsWith#2)
+//@   assert[false-changes-nothing] before return : !result ==> !called(append#1)
+//@   assert[true-records-both] before return : result ==> called(append#1) && called(append#2)
+
+// extend: the result contains both ranges (left is the smaller left, right the bigger right).
+//@ func (*keyRange).extend
+//@   props C14
+//@   requires r != nil && krWF(*r) && krWF(kr) && (!krEmpty(*r) ==> len(r.left) == 0 || len(r.left) >= 8) && (!krEmpty(kr) ==> len(kr.left) >= 8 && len(kr.right) >= 8)
+//@   requires !krEmpty(*r) ==> (len(r.left) == 0 || len(r.left) >= 8) && (len(r.right) == 0 || len(r.right) >= 8)
+//@   ensures[empty-arg] old(krEmpty(kr)) ==> *r == old(*r)
+//@   ensures[left] !old(krEmpty(kr)) ==> (r.left == kr.left || r.left == old(r.left)) && (r.left == kr.left || keycmp(kr.left, r.left) >= 0)
+//@   ensures[right] !old(krEmpty(kr)) ==> (r.right == kr.right || r.right == old(r.right)) && (r.right == kr.right || keycmp(kr.right, r.right) <= 0)
+//@   ensures[inf] !old(krEmpty(kr)) ==> (r.inf <==> (old(r.inf) || kr.inf))
+//@   assigns r.left, r.right, r.inf, r.size
+
+// validate: nil means the level's tables are ordered, with disjoint key ranges.
+//@ func (*levelHandler).validate
+//@   props C14
+//@   requires forall i int :: 0 <= i && i < len(s.tables) ==> s.tables[i] != nil && len(s.tables[i].smallest) >= 8 && len(s.tables[i].biggest) >= 8
+//@   ensures[level0] s.level == 0 ==> result == nil
+//@   ensures[ordered] result == nil && s.level != 0 ==> forall j int :: 1 <= j && j < len(s.tables) ==> keycmp(s.tables[j-1].biggest, s.tables[j].smallest) < 0 && keycmp(s.tables[j].smallest, s.tables[j].biggest) <= 0
+//@   ensures[unlocked] s.level != 0 ==> !held(s.RWMutex)
+//@   assigns held(s.RWMutex)
+//@   loop 1 invariant[range] 1 <= j && numTables == len(s.tables)
+//@   loop 1 invariant[so-far] forall k int {s.tables[k].smallest} :: 1 <= k && k < j ==> keycmp(s.tables[k-1].biggest, s.tables[k].smallest) < 0 && keycmp(s.tables[k].smallest, s.tables[k].biggest) <= 0
